@@ -4,8 +4,8 @@ from ..core import *
 from ..ops import *
 from .c04 import judge
 
-IMPORTS = 'From OFV Require Import Base.Cplx Sem.PauliSem Model.SymbolicOp Model.QubitOp Model.Grouping Check.Schedules.\n'
-NEEDS = ['Check/Schedules', 'Model/Grouping', 'Thm/C18/Grouping']
+IMPORTS = 'From OFV Require Import Base.Cplx Sem.PauliSem Model.SymbolicOp Model.QubitOp Model.Grouping Check.Schedules Thm.C18.PairBetween.\n'
+NEEDS = ['Check/Schedules', 'Model/Grouping', 'Thm/C18/Grouping', 'Thm/C18/PairBetween']
 LEVEL = 'proof'
 
 def centry(e):
@@ -47,6 +47,10 @@ def run(ctx):
         if ps is None: continue
         e = guarded('pair_between', rp, lambda: '(pair_between_ok %s %s %s)' % (cnl(f1), cnl(f2), cpairings(ps)))
         if e: add('pair_between', e, rp, key=(a, b))
+        # the same output as index pairs (position in frag1, position in frag2) against the proved index model
+        def idxpairs(pairing): return '(' + clist(['(%s, %s)' % (cnat(x[0]), cnat(x[1] - 100)) for x in pairing if isinstance(x, tuple) and len(x) == 2]) + ' : list (nat * nat))'
+        e2 = guarded('pair_between', rp, lambda: '(pb_model_ok %s %s (%s : list (list (nat * nat))))' % (cnat(a), cnat(b), clist([idxpairs(p) for p in ps])))
+        if e2: add('pair_between_model', e2, rp, key=(a, b))
     # pair_within_simultaneously
     for n in range(4, N(17, 33)):
         lab = list(range(n)); rp = {'call': 'pair_within_simultaneously', 'labels': 'range(%d)' % n}
